@@ -41,6 +41,7 @@ type IPFIX struct {
 	addr    string
 	workers int
 	stop    bool
+	done    chan struct{}
 	stats   IPFIXStats
 	pool    chan chan struct{}
 }
@@ -85,6 +86,7 @@ func NewIPFIX() *IPFIX {
 		port:    opts.IPFIXPort,
 		addr:    opts.IPFIXAddr,
 		workers: opts.IPFIXWorkers,
+		done:    make(chan struct{}),
 	}
 }
 
@@ -166,6 +168,9 @@ func (i *IPFIX) run() {
 		ipfixUDPCh <- IPFIXUDPMsg{raddr, b[:n]}
 	}
 
+	// no datagram is handed over any more
+	close(i.done)
+
 }
 
 func (i *IPFIX) shutdown() {
@@ -178,6 +183,8 @@ func (i *IPFIX) shutdown() {
 	i.stop = true
 	logger.Println("stopping ipfix service gracefully ...")
 	time.Sleep(1 * time.Second)
+	// the receive loop may still be handing over a datagram: the queue is closed only after it has ended
+	<-i.done
 
 	// dump the templates to storage
 	if err := mCache.Dump(opts.IPFIXTplCacheFile); err != nil {
